@@ -48,6 +48,9 @@ def outbound(case, res):
         S.settle()
         S.request(sub, "fetch", {"id": "f"})
         S.request(own, "add", {"path": "s", "value": 0})
+        # a few more states: the result of a `get` is then ONE frame that is longer than a small write buffer
+        for i in range(6):
+            S.request(own, "add", {"path": "t/%d" % i, "value": "t" * 30})
         S.settle()
         sub.ledger = False          # only the byte stream of sub is judged here
         sub.keep_healthy_check = True
@@ -74,7 +77,7 @@ def outbound(case, res):
             for n in sizes:
                 S.request(own, "change", {"path": "s", "value": "v" * n}).expect_override = "any"
                 if incoming and rng.random() < 0.5:
-                    S.send_bytes(sub, S.frame_for(sub, json.dumps({"id": S.next_id(sub), "method": "info"}).encode()))
+                    S.send_bytes(sub, S.frame_for(sub, json.dumps({"id": S.next_id(sub), "method": rng.choice(["info", "get", "get"]), "params": {}}).encode()))
             try:
                 S.settle()
             except Hang:
@@ -92,7 +95,22 @@ def outbound(case, res):
                 # one fails with ENOBUFS / ENOMEM (once). Whether the daemon gives the connection up or goes on is its business -
                 # if the connection stays, its stream is still exactly the generated frames
                 S.settle()
-                S.sim.wpol(sub.fd, budget=rng.choice([3, 40, 700, wbuf // 2]), cap=rng.choice([-1, 7, 300]), err=rng.choice([errno.ENOBUFS, errno.ENOMEM]), after=rng.choice([0, 1, 1, 2]), once=True)
+                if rng.random() < 0.4:
+                    # ... or the kernel says "would block" to one call and takes the very next one (the reader was reading right
+                    # then); the owner's next change is handled BEFORE the connection's own "writable" event
+                    if rng.random() < 0.6:
+                        # first a frame that is longer than a small write buffer (the result of a get), of which the kernel takes a part
+                        S.sim.wpol(sub.fd, budget=rng.choice([64, 100, 200, 400]))
+                        S.send_bytes(sub, S.frame_for(sub, json.dumps({"id": S.next_id(sub), "method": "get", "params": {}}).encode()))
+                        S.settle()
+                    S.sim.wpol(sub.fd, budget=rng.choice([-1, -1, 4000, 300]), cap=rng.choice([-1, -1, 64]), err=errno.EAGAIN, after=rng.choice([0, 0, 1]), once=True)
+                    S.request(own, "change", {"path": "s", "value": "after-would-block-once"}).expect_override = "any"
+                    if incoming:
+                        S.send_bytes(sub, S.frame_for(sub, json.dumps({"id": S.next_id(sub), "method": "info"}).encode()))
+                    S.step(order=[own.fd, sub.fd])
+                    S.sig("would-block-once", t)
+                else:
+                    S.sim.wpol(sub.fd, budget=rng.choice([3, 40, 700, wbuf // 2]), cap=rng.choice([-1, 7, 300]), err=rng.choice([errno.ENOBUFS, errno.ENOMEM]), after=rng.choice([0, 1, 1, 2]), once=True)
                 S.settle()
                 S.request(own, "change", {"path": "s", "value": "after-transient-error"}).expect_override = "any"
                 S.settle()
@@ -109,7 +127,7 @@ def outbound(case, res):
             for r in steps:
                 S.sim.wpol(sub.fd, budget=r)
                 if incoming and rng.random() < 0.3:
-                    S.send_bytes(sub, S.frame_for(sub, json.dumps({"id": S.next_id(sub), "method": "info"}).encode()))
+                    S.send_bytes(sub, S.frame_for(sub, json.dumps({"id": S.next_id(sub), "method": rng.choice(["info", "get"]), "params": {}}).encode()))
                 if rng.random() < 0.3:
                     S.request(own, "change", {"path": "s", "value": "m" * rng.choice([1, 10, wbuf // 3])}).expect_override = "any"
                 S.settle()
